@@ -320,6 +320,17 @@ Definition extend_core (sc : scope) (st : state) (ps : pos) (rvs : list rvalue) 
   | (st', upd, None) => (if upd && notify_on sc then fix_chain st' ps else st', Ok RNone)
   end.
 
+(* l *= n: the original items are extended n - 1 times *)
+Fixpoint repeat_extend (sc : scope) (ps : pos) (rvs : list rvalue) (k : nat) (st : state) : state * outcome :=
+  match k with
+  | O => (st, Ok RNone)
+  | S k' =>
+      match extend_core sc st ps rvs with
+      | (st', Err e) => (st', Err e)
+      | (st', _) => repeat_extend sc ps rvs k' st'
+      end
+  end.
+
 Definition detach_all (st : state) (its : list (key * node)) : state :=
   fold_left (fun s kv => add_detached s (snd kv)) its st.
 
@@ -517,16 +528,7 @@ Definition exec (sc : scope) (st : state) (ps : pos) (tid : N) (tk : kind) (tpth
       if sl then (st, Err EWrite) else
       if m <=? 0 then (detach_all (update_at st ps (set_items [])) its, Ok RNone)
       else
-        let rvs := map (fun kv => rv_of_item (snd kv)) its in
-        (fix go (k : nat) (st : state) : state * outcome :=
-           match k with
-           | O => (st, Ok RNone)
-           | S k' =>
-               match extend_core sc st ps rvs with
-               | (st', Err e) => (st', Err e)
-               | (st', _) => go k' st'
-               end
-           end) (Z.to_nat (m - 1)) st
+        repeat_extend sc ps (map (fun kv => rv_of_item (snd kv)) its) (Z.to_nat (m - 1)) st
   | LAdd rvs =>
       (* self.copy() then extend on the copy: the copy is unsealed, so only as_sealed(True) refuses *)
       if treats_as_sealed sc default_flags then (st, Err EWrite) else
